@@ -17,6 +17,7 @@
 #include <unistd.h>
 #include <dlfcn.h>
 #include <sys/stat.h>
+#include <sys/uio.h>
 
 #include <tbox/event/loop.h>
 #include <tbox/util/buffer.h>
@@ -25,18 +26,66 @@
 #include <tbox/http/server/server.h>
 #include <tbox/http/server/context.h>
 
-// write() interposer: while armed, every write() on a socket other than the client's fails with
-// EPIPE (a connection whose peer reset it). The client side of the harness uses send()/recv().
+// System-call interposers (fault schedules). The client side of the harness uses send()/recv(), so every write()/
+// readv()/accept() on a socket other than the client's belongs to the server under test.
+//  write : answers come from a queue filled by the op `wq` (p = pass through, s<n> = short count: at most n bytes are
+//          really written, a = EAGAIN, e = EPIPE now and for every later write); `wfail` = EPIPE from now on;
+//          an empty queue passes through.
+//  readv : `rseg` arms a one-shot ECONNRESET for the next readv on the server side.
+//  accept: the first g_accept_fail calls fail (EMFILE, ECONNABORTED, EINTR in turn); the pending connection stays queued.
+#include <deque>
+struct WAns { char kind; size_t n; };
+static std::deque<WAns> g_wq;
+static volatile unsigned long g_wq_used = 0;
 static volatile bool g_wfail = false;
+static volatile bool g_rerr = false;
+static volatile int g_accept_fail = 0;
 static volatile int g_client_fd = -1;
+static bool serverSideSocket(int fd) {
+    if (fd == g_client_fd) return false;
+    struct stat st;
+    return fstat(fd, &st) == 0 && S_ISSOCK(st.st_mode);
+}
 extern "C" ssize_t write(int fd, const void *buf, size_t n) {
     typedef ssize_t (*write_t)(int, const void *, size_t);
     static write_t real = (write_t)dlsym(RTLD_NEXT, "write");
-    if (g_wfail && fd != g_client_fd) {
-        struct stat st;
-        if (fstat(fd, &st) == 0 && S_ISSOCK(st.st_mode)) { errno = EPIPE; return -1; }
+    if ((g_wfail || !g_wq.empty()) && serverSideSocket(fd)) {
+        if (g_wfail) { errno = EPIPE; return -1; }
+        WAns a = g_wq.front(); g_wq.pop_front(); ++g_wq_used;
+        switch (a.kind) {
+            case 'p': break;
+            case 's': return real(fd, buf, n < a.n ? n : a.n);
+            case 'a': errno = EAGAIN; return -1;
+            case 'e': g_wfail = true; errno = EPIPE; return -1;
+        }
     }
     return real(fd, buf, n);
+}
+extern "C" ssize_t readv(int fd, const struct iovec *iov, int cnt) {
+    typedef ssize_t (*readv_t)(int, const struct iovec *, int);
+    static readv_t real = (readv_t)dlsym(RTLD_NEXT, "readv");
+    if (g_rerr && serverSideSocket(fd)) { g_rerr = false; errno = ECONNRESET; return -1; }
+    return real(fd, iov, cnt);
+}
+// OS-level effect watched as a model-internal observable: the server never shuts a connection down half-way
+// (the repaired C12-04 defect was a shutdown(SHUT_RD)); a rewrite that does is reported as a broken correspondence
+static std::string g_shutdowns;
+extern "C" int shutdown(int fd, int how) {
+    typedef int (*shutdown_t)(int, int);
+    static shutdown_t real = (shutdown_t)dlsym(RTLD_NEXT, "shutdown");
+    if (fd != g_client_fd && g_client_fd >= 0) g_shutdowns += (g_shutdowns.empty() ? "" : ",") + std::to_string(how);
+    return real(fd, how);
+}
+extern "C" int accept(int fd, struct sockaddr *addr, socklen_t *len) {
+    typedef int (*accept_t)(int, struct sockaddr *, socklen_t *);
+    static accept_t real = (accept_t)dlsym(RTLD_NEXT, "accept");
+    if (g_accept_fail > 0) {
+        static const int errs[] = {EMFILE, ECONNABORTED, EINTR};
+        errno = errs[g_accept_fail % 3];
+        --g_accept_fail;
+        return -1;
+    }
+    return real(fd, addr, len);
 }
 
 using namespace tbox;
@@ -138,6 +187,25 @@ static bool verByName(const std::string &n, HttpVer &v) {
     return false;
 }
 
+// "p,s5,a,e"
+static bool parseWq(const std::string &spec, std::vector<WAns> &out) {
+    out.clear();
+    size_t pos = 0;
+    while (true) {
+        size_t e = spec.find(',', pos);
+        std::string a = spec.substr(pos, e == std::string::npos ? std::string::npos : e - pos);
+        if (a == "p" || a == "a" || a == "e") out.push_back(WAns{a[0], 0});
+        else if (a.size() >= 2 && a[0] == 's') {
+            uint64_t v = 0;
+            if (!vh::to_u64(a.substr(1), v)) return false;
+            out.push_back(WAns{'s', (size_t)v});
+        } else return false;
+        if (e == std::string::npos) break;
+        pos = e + 1;
+    }
+    return true;
+}
+
 // ---------------------------------------------------------------- parser level
 struct PConn {
     RequestParser parser;
@@ -156,10 +224,13 @@ static void doFeed(PConn &c, const std::vector<uint8_t> &seg) {
     try {
         while (c.buff.readableSize() > 0) {
             size_t avail = c.buff.readableSize();
-            // exact-size copy: a read past the given size is visible to ASan
-            std::unique_ptr<uint8_t[]> exact(new uint8_t[avail]);
-            memcpy(exact.get(), c.buff.readableBegin(), avail);
-            size_t rsize = c.parser.parse(exact.get(), avail);
+            // exact-size copy, right-aligned against the ASan redzone (a read past the given size is visible), the start
+            // pointer at every alignment 0..7 in turn
+            static unsigned align_seq = 0;
+            size_t off = (align_seq++) % 8;
+            std::unique_ptr<uint8_t[]> exact(new uint8_t[off + avail]);
+            memcpy(exact.get() + off, c.buff.readableBegin(), avail);
+            size_t rsize = c.parser.parse(exact.get() + off, avail);
             if (rsize > avail) { std::cout << "P over-consume " << rsize << " of " << avail << "\n"; c.dead = true; return; }
             c.buff.hasRead(rsize);
             auto st = c.parser.state();
@@ -255,8 +326,9 @@ struct Srv {
     bool eof = false;
     bool cclosed = false;
 
-    bool start() {
+    bool start(int accept_failures = 0) {
         static int seq = 0;
+        g_accept_fail = accept_failures;
         path = "/tmp/C12-h-" + std::to_string(getpid()) + "-" + std::to_string(seq++) + ".sock";
         loop = event::Loop::New();
         srv = new Server(loop);
@@ -297,6 +369,7 @@ struct Srv {
         if (run_loop) pump();
         for (int idle = 0, rounds = 0; idle < 2 && rounds < 100000; ++rounds) {
             size_t before = got.size();
+            unsigned long used_before = g_wq_used;
             if (!eof && !now_eof && cfd >= 0) {
                 char b[65536];
                 for (;;) {
@@ -306,11 +379,13 @@ struct Srv {
                     break;
                 }
             }
-            idle = (got.size() == before) ? idle + 1 : 0;
             if (run_loop) for (int i = 0; i < 3; ++i) { loop->runNext([] {}, "verif-pass"); loop->runLoop(event::Loop::Mode::kOnce); }
+            idle = (got.size() == before && g_wq_used == used_before) ? idle + 1 : 0;
         }
         std::cout << "P out " << showBytes(got) << "\n";
         if (now_eof) { eof = true; std::cout << "P eof\n"; }
+        std::cout << "M shutdown " << (g_shutdowns.empty() ? "-" : g_shutdowns) << "\n";
+        g_shutdowns.clear();
     }
 
     void clientClose() {
@@ -320,7 +395,7 @@ struct Srv {
     }
 
     void stop() {
-        g_wfail = false;
+        g_wfail = false; g_rerr = false; g_accept_fail = 0; g_wq.clear(); g_shutdowns.clear();
         if (poisoned) {     // after an exception out of a handler the library's callback counters are unbalanced
             if (cfd >= 0) { ::close(cfd); cfd = -1; }   // (its destructors assert on them): leak the objects
             if (!path.empty()) ::unlink(path.c_str());
@@ -348,7 +423,7 @@ int main() {
         const std::string &op = w[0];
         std::vector<uint8_t> d, d2, d3, d4, d5, d6; uint64_t n = 0, n2 = 0, n3 = 0; std::map<std::string, std::string> kvs, kvs2, kvs3;
         Method me = Method::kUnset; HttpVer ve = HttpVer::kUnset;
-        bool ok = true; Srv::Script sc;
+        bool ok = true; Srv::Script sc; std::vector<WAns> wq;
         try {
             if (op == "method" && w.size() == 2 && vh::unhex(w[1], d)) {
                 std::cout << "P method " << methodName(StringToMethod(std::string(d.begin(), d.end()))) << "\n";
@@ -426,12 +501,13 @@ int main() {
             } else if (op == "feed" && w.size() == 2 && vh::unhex(w[1], d) && !sv) {
                 if (!pc) pc.reset(new PConn);
                 doFeed(*pc, d);
-            } else if (op == "srv" && w.size() == 1 && !sv && !pc) {
+            } else if (op == "srv" && (w.size() == 1 || (w.size() == 2 && vh::to_u64(w[1], n) && n >= 1 && n <= 5)) && !sv && !pc) {
                 sv.reset(new Srv);
-                if (!sv->start()) { std::cout << "P srv-start-failed\n"; }
+                if (!sv->start((int)n)) { std::cout << "P srv-start-failed\n"; }
                 else std::cout << "P srv\n";
             } else if (sv && sv->poisoned && (op == "seg" || op == "done" || op == "doneN" || op == "doneR" || op == "rel" ||
-                       op == "cclose" || op == "dclose" || op == "dcloseN" || op == "cdone" || op == "chalf" || op == "chalfS" || op == "wfail" || op == "sstop" || op == "sclean")) {
+                       op == "cclose" || op == "dclose" || op == "dcloseN" || op == "cdone" || op == "chalf" || op == "chalfS" || op == "wfail" || op == "sstop" || op == "sclean" ||
+                       op == "wq" || op == "rseg")) {
                 std::cout << "P poisoned\n";
             } else if (op == "sync" && w.size() == 3 && vh::to_u64(w[1], n) && vh::unhex(w[2], d) && sv && !sv->scripts.count((int)n)) {
                 Srv::Script sc(Srv::kLevels);
@@ -473,6 +549,14 @@ int main() {
             } else if ((op == "chalf" || op == "chalfS") && w.size() == 1 && sv && !sv->cclosed) {
                 ::shutdown(sv->cfd, SHUT_WR);   // the client has nothing more to say but keeps reading
                 sv->settle();
+            } else if (op == "wq" && w.size() == 2 && sv && parseWq(w[1], wq) && wq.size() <= 8) {
+                for (auto &a : wq) g_wq.push_back(a);
+                std::cout << "P wq\n";
+            } else if (op == "rseg" && w.size() == 2 && vh::unhex(w[1], d) && sv && !d.empty() && !sv->cclosed) {
+                g_rerr = true;
+                if (sv->cfd >= 0) ::send(sv->cfd, d.data(), d.size(), MSG_NOSIGNAL);
+                sv->settle();
+                g_rerr = false;
             } else if (op == "wfail" && w.size() == 1 && sv) {
                 g_wfail = true;
                 std::cout << "P wfail\n";
